@@ -249,3 +249,29 @@ func HC18_pkgSelector() {
 	}
 	vfAssert(sel.Ignore(&packages.Package{PkgPath: "fmt"}) && sel.Ignore(&packages.Package{PkgPath: "other.org/lib/x"}), "C18/package-selector-drops-foreign-packages")
 }
+
+// HC18_interfaceShapes: interfaces of every shape in the scanned package — empty, with methods, made
+// only of embedded interfaces (of the package, of the standard library), with type constraints — are
+// scanned for unions without a runtime error.
+func HC18_interfaceShapes() {
+	decls := []string{
+		"type Drawable interface{ Shape }\n",
+		"type Printable interface{ fmt.Stringer }\n",
+		"type Both interface {\n\tShape\n\tfmt.Stringer\n}\n",
+		"type Number interface{ ~int | ~float64 }\n",
+		"type Nothing interface{}\n",
+		"type Any = interface{}\n",
+	}
+	src := "package p\n\nimport \"fmt\"\n\nvar _ fmt.Stringer\n\ntype Shape interface{ isShape() }\n\ntype Circle struct{ R int }\n\nfunc (Circle) isShape() {}\n\n" +
+		decls[vfChoice("interface", len(decls))] + "\ntype Holder struct{ S Shape }\n"
+	pkg := vfTypeCheck("example.com/mod/p", []string{"/m/p/p.go"}, []string{src}, nil)
+	rt, msg := false, ""
+	var ana *Analysis
+	_, rt, msg = vfCatch(func() { ana = NewAnalysisFromTypes(pkg, []types.Type{pkg.Types.Scope().Lookup("Holder").Type()}) })
+	vfObserve("outcome", msg)
+	vfAssert(!rt, "C18/union-scan-no-runtime-error")
+	if ana != nil {
+		_, isUnion := ana.Types[pkg.Types.Scope().Lookup("Shape").Type()].(*Union)
+		vfAssert(isUnion, "C18/supported-input-is-still-analysed")
+	}
+}
